@@ -422,8 +422,10 @@ Canon2Diff(a, b) ==
   \cup {<<"graph_edges_differ", PickOne(SymDiff(Canon2Edges(a), Canon2Edges(b)))>> :
           x \in {1} \ {i \in {1} : Canon2Edges(a) = Canon2Edges(b)}}
 
+\* bits: 1 INTERNAL, 2 INTERRUPTED, 4 FAILED, 8 WARNING, 16 PENDING, 32 DRAINED.  DRAINED means the build
+\* was cut short after a failure (the failed step itself may have been detached or re-created since)
 RcClass(rc) == IF rc = 0 \/ rc = 8 THEN "success"
-               ELSE IF (rc \div 4) % 2 = 1 THEN "failed"
+               ELSE IF (rc \div 4) % 2 = 1 \/ (rc \div 32) % 2 = 1 THEN "failed"
                ELSE IF (rc \div 16) % 2 = 1 THEN "pending" ELSE "other"
 
 =============================================================================
